@@ -101,6 +101,10 @@ def check(sql, dialect, with_names=()):
       stack.pop()
   if stack:
     problems.append('unclosed bracket(s) %r' % ''.join(stack))
+  # the compiler's stub for a rule proven empty (`/* nil */ SELECT NULL ... WHERE MONAD = 0`) is pruned from
+  # unions of rules; as an arm of a UNION ALL it is a placeholder leak (and has the wrong number of columns)
+  if re.search(r'UNION\s+ALL\s*/\* nil \*/', sql) or re.search(r'/\* nil \*/[^;]*?MONAD = 0\s*UNION\s+ALL', sql):
+    problems.append('the `/* nil */` stub of a rule proven empty is left as an arm of a UNION ALL')
   code = ' '.join(t if k != 'str' else "''" for k, t, p in toks)
   for pat in PLACEHOLDERS:
     m = re.search(pat, code)
